@@ -177,8 +177,89 @@ def long_body(n):
     return "\n".join(L) + "\n"
 
 
+def sparse_group(k):
+    """error path: group indices 0 and k (the shader does not grow with k)"""
+    return ("@group(0) @binding(0) var<uniform> a: vec4<f32>;\n"
+            "@group(%du) @binding(0) var<uniform> b: vec4<f32>;\n"
+            "@compute @workgroup_size(1) fn c0() { _ = a.x + b.x; }\n" % k)
+
+
+def magnitude(kind, k):
+    """one numeric literal of the shader grows, the shader does not"""
+    if kind == "binding_index":
+        return ("@group(0) @binding(%du) var<uniform> a: vec4<f32>;\n"
+                "@group(0) @binding(%du) var<storage, read_write> b: array<f32, 4>;\n"
+                "@compute @workgroup_size(1) fn c0() { b[0] = a.x; }\n" % (k, max(k - 1, 0)))
+    if kind == "array_len":
+        return ("struct Big { items: array<vec4<f32>, %d>, tail: f32 }\n"
+                "@group(0) @binding(0) var<storage, read_write> b: Big;\n"
+                "@compute @workgroup_size(1) fn c0() { b.tail = b.items[0].x; }\n" % k)
+    if kind == "frag_location":
+        return ("@fragment fn p0() -> @location(%d) vec4<f32> { return vec4<f32>(0.0); }\n" % k)
+    if kind == "vertex_location":
+        return ("struct VIn { @location(%d) a: vec4<f32> }\n"
+                "@vertex fn v0(i: VIn) -> @builtin(position) vec4<f32> { return i.a; }\n" % k)
+    if kind == "override_id":
+        return ("@id(%d) override scale: f32 = 1.0;\n"
+                "@group(0) @binding(0) var<storage, read_write> b: array<f32, 4>;\n"
+                "@compute @workgroup_size(1) fn c0() { b[0] = scale; }\n" % k)
+    if kind == "member_size_attr":
+        return ("struct P { @size(%d) a: f32, b: f32 }\n"
+                "@group(0) @binding(0) var<storage, read_write> b: P;\n"
+                "@compute @workgroup_size(1) fn c0() { b.b = b.a; }\n" % k)
+    if kind == "workgroup_size":
+        return ("@group(0) @binding(0) var<storage, read_write> b: array<f32, 4>;\n"
+                "@compute @workgroup_size(%d, 1, 1) fn c0() { b[0] = 1.0; }\n" % k)
+    raise ValueError(kind)
+
+
+def override_chain(depth, first_default, in_workgroup_size=True):
+    """every override mentions the previous one twice; the last one sizes the workgroup"""
+    L = ["override o0: u32%s;" % (" = 4u" if first_default else "")]
+    for k in range(1, depth + 1):
+        L.append("override o%d: u32 = (o%d + o%d) / 2u;" % (k, k - 1, k - 1))
+    L.append("@group(0) @binding(0) var<storage, read_write> data: array<f32, 4>;")
+    if in_workgroup_size:
+        L.append("@compute @workgroup_size(o%d) fn c0() { data[0] = 1.0; }" % depth)
+    else:
+        L.append("@compute @workgroup_size(1) fn c0() { data[0] = f32(o%d); }" % depth)
+    return "\n".join(L) + "\n"
+
+
+def const_chain(depth):
+    L = ["const k0 = 4u;"]
+    for k in range(1, depth + 1):
+        L.append("const k%d = (k%d + k%d) / 2u;" % (k, k - 1, k - 1))
+    L.append("alias T0 = vec4<f32>;")
+    for k in range(1, depth + 1):
+        L.append("alias T%d = T%d;" % (k, k - 1))
+    L.append("@group(0) @binding(0) var<storage, read_write> data: array<T%d, k%d>;" % (depth,
+                                                                                      depth))
+    L.append("@compute @workgroup_size(k%d) fn c0() { data[0] = T%d(1.0); }" % (depth, depth))
+    return "\n".join(L) + "\n"
+
+
+ERR_FAMILIES = {"err_sparse_group": "NonConsecutiveBindGroups"}
+
+
 def families(tier):
     F = []
+    for k in [2, 9, 1000, 10 ** 6, 2 ** 31, 4 * 10 ** 9, 2 ** 32 - 1]:
+        F.append(("err_sparse_group", k, sparse_group(k)))
+    for kind, ks in (("binding_index", [1, 1000, 10 ** 6, 2 ** 32 - 1]),
+                     ("array_len", [1, 1000, 10 ** 6, 4 * 10 ** 6]),
+                     ("frag_location", [0, 7, 1000, 10 ** 6]),
+                     ("vertex_location", [0, 15, 1000, 10 ** 6]),
+                     ("override_id", [0, 100, 65535]),
+                     ("member_size_attr", [4, 1024, 2 ** 20, 2 ** 28]),
+                     ("workgroup_size", [1, 256, 65535, 2 ** 31 - 1])):
+        for k in ks:
+            F.append(("magnitude_" + kind, k, magnitude(kind, k)))
+    for d in [2, 4, 8, 16, 24, 32, 48, 64]:
+        F.append(("override_chain_required", d, override_chain(d, False)))
+        F.append(("override_chain_defaulted", d, override_chain(d, True)))
+        F.append(("override_chain_in_body", d, override_chain(d, False, False)))
+        F.append(("const_alias_chain", d, const_chain(d)))
     for d in [4, 8, 16, 24, 32, 48]:
         F.append(("let_chain_call_arg", d, let_chain(d, True)))
         F.append(("let_chain_plain", d, let_chain(d, False)))
@@ -361,6 +442,22 @@ def main(tier, replay, t0):
             inconclusive.append("child failed for %s/%d: %r" % (name, size, r))
             continue
         res = r["r"]
+        if name in ERR_FAMILIES:
+            # the shader is refused: the refusal has to come as quickly as any other answer
+            cpu = res["cpu_ns"] / 1e9
+            rp.update({"cpu_s": cpu, "observed": res.get("err_kind") or res.get("result")})
+            if res["result"] != "err" or res.get("err_kind") != ERR_FAMILIES[name]:
+                inconclusive.append("family %s/%d: expected %s, got %s" % (
+                    name, size, ERR_FAMILIES[name], res.get("err_kind") or res.get("result")))
+                continue
+            distinct.add(src)
+            max_cpu = max(max_cpu, cpu)
+            per_family.setdefault(name, []).append((size, 0, 0, cpu, lines))
+            if cpu > CPU_BOUND_SMALL_S:
+                viol.append(Violation("cpu-over-budget", name,
+                                      "%d-line shader took %.2f s CPU (> %.1f s) to be refused"
+                                      % (lines, cpu, CPU_BOUND_SMALL_S), rp))
+            continue
         if res["result"] != "ok":
             if res.get("ref", {}).get("parse") == "ok" and res["ref"].get("valid_all") == "ok":
                 inconclusive.append("family %s/%d declined by the tool: %s" % (
